@@ -6,7 +6,9 @@
      fp_muln_low : c[0..2n)           = sum_{j,k} PROD(a_j, b_k) B^(j+k)                       (Comba, product scanning)
      fp_sqrn_low : c[0..2n)           = sum_j PROD(a_j, a_j) B^(2j) + 2 sum_{j<k} PROD(a_j, a_k) B^(j+k)   (Comba squaring)
    What is proved: carry propagation through the triple register, column placement, which digit pairs enter which column, frames.
-   ASSUMED (machine arithmetic): mulhi:mullo is the exact double-digit product.  Montgomery reduction fp_rdcn_low is NOT covered. */
+   ASSUMED (machine arithmetic): mulhi:mullo is the exact double-digit product.  Montgomery reduction fp_rdcn_low is NOT covered.
+   REGISTERED: fp_mul1_low, fp_mula_low.  The Comba contracts (fp_muln_low, fp_sqrn_low) are stated but their units are experimental only
+   (C02X_EXPERIMENTAL=1): muln did not finish in 600 s, sqrn needed 494 s. */
 #pragma once
 #include "fp_low.h"
 _Static_assert(RLC_FP_DIGS == 4, "c02x_mul.h spells the sums out for 4 digits (shipped 256-bit field, 64-bit digits)");
